@@ -148,6 +148,7 @@ func init() {
 			guard(r, func() { ruleMergeReentrant(r) }) // a merge that decodes into state shared by all blocks stores another row's value
 			guard(r, func() { ruleSwapInPlaceSameSize(r) })
 			guard(r, func() { ruleReplayOrder(r) }) // an operation replayed out of order overwrites the value committed last (KF4)
+			guard(r, func() { ruleMarkerArms(r) }) // offset reuse: an offset is freed under the latch of its own block, next to the sweep of its columns — freed earlier, the sweep wipes the next occupant's committed values
 		}})
 	register(&PropSpec{ID: "C02",
 		Explanation: "Atomicity — structural part. (C02.query) path rules over Collection.Query/rollback/commit/reset: error edge ⇒ rollback only, nil edge ⇒ commit only, transaction released, buffers dropped on every exit; (C02.effects) who-may-call over the context graph of the lockset walk: every Apply body and every logger/recorder append is reachable only below Txn.commit (or index back-fill); (C02.isolation) no bit of the shared fill list is set outside commit; (C02.release) failing inserts free their offset and leave no marker, rollback releases the offsets of successful inserts; (C02.readers) no reading API decodes a transaction buffer." + staticNote,
@@ -222,6 +223,8 @@ func init() {
 			guard(r, func() { ruleExtremeFold(r) })
 			guard(r, func() { ruleAccumulatorsFromZero(r) })
 			guard(r, func() { ruleInitializeFirst(r) })
+			guard(r, func() { ruleCommitUpdates(r) }) // "over live rows": the presence bitmaps the filters intersect lose a deleted row only if the markers reach every column
+			guard(r, func() { ruleRowDelete(r) })
 		}})
 	register(&PropSpec{ID: "C05",
 		Explanation: "Buffer/commit/log round-trip — structural skeleton only (most of this property is about byte values and is not decidable statically). (C05.flags) writers and reader agree on header flags, size tags and payload widths, decided per arm; (C05.varint) writer loop and the reader's five stages agree; (C05.header) block headers written on block change, reader restarts the offset chain from them; (C05.copy) clones and resets cover every field, clones share no slice; (C01.width) Put/read/Swap widths per kind, swap retags as Put; (C03.order) replay never appends to the buffer." + staticNote,
@@ -422,6 +425,7 @@ func init() {
 			guard(r, func() { ruleKeyWiring(r) })
 			guard(r, func() { ruleL6(r) })
 			guard(r, func() { ruleKeyAtomic(r) })
+			guard(r, func() { ruleL4(r) }) // a stale row counter makes next() hand out a live offset: the insert re-keys somebody's row
 			guard(r, func() { ruleCommitOrder(r, true, false) })
 			guard(r, func() {
 				ruleUnits(r, "C12.units", unitsText, 4, anyOf(applyUnitFns("key"), fnsel("(*column.Txn).InsertKey", "(*column.Txn).UpsertKey", "(*column.Txn).QueryKey", "(*column.Txn).DeleteKey", "(column.Row).Key", "(column.Row).SetKey")))
@@ -544,6 +548,7 @@ func init() {
 			})
 			guard(r, func() { ruleVacuumVisitsEveryRow(r) })
 			guard(r, func() { ruleRelease(r) }) // a marker queued for a released offset deletes the row that owns it by then, deadline and all
+			guard(r, func() { ruleReadChunk(r) }) // "the deadline survives snapshot/restore": the snapshot reads a block under the block's latch, or a TTL change in mid-commit is recorded as applied and lost
 		}})
 	register(&PropSpec{ID: "C18",
 		Explanation: "Race/deadlock discipline. The lockset walk (see C10) decides for every call path: (L0) balance; (L1) column Apply under the exclusive latch, index back-fill included; (L2) positioned callbacks under the latch; (L3) every storage access reachable from an API root under the latch; (L4) fill list under the collection mutex, counter atomic-only, commit-id table under mutex/latch; (L6) key table and sorted index under their locks; (L7) cross-block column state is written only under a lock its readers take; (L8) the acquisition-order graph over all paths is acyclic with no re-acquisition and no latch-under-latch; (L9) the registry published through atomic.Value is never edited in place; (L.table) every field of every Column implementation is classified. Necessary conditions for race- and deadlock-freedom over all schedules; not sufficient (abstract locks, no alias analysis across functions, dependencies trusted)." + staticNote,
